@@ -8,7 +8,8 @@ MANIFEST = {
             "the requests sent, the xid every callback sees and the returned classes of the model of WithGlobalTx equal an "
             "independent reference semantics of the six propagation modes; C07_outer_intact: after any inner scope, under any "
             "coordinator behaviour, the enclosing scope's xid/role/name are those before it; C07_never_ends_joined; "
-            "C07_carrier_single / _roundtrip / _case_spellings for the grpc/gin/dubbo xid transport), proved for every code shape "
+            "C07_carrier_single / _wrapped / _roundtrip / _case_spellings for the grpc/gin/dubbo xid transport, over every value shape "
+            "(string, list of strings, other) and every set of headers the outgoing context already holds), proved for every code shape "
             "satisfying shape_ok and instantiated at the propagation switch, role switch and save/restore REGENERATED from "
             "pkg/tm/transaction_executor.go on every run; tied to the code by running the real tm.WithGlobalTx over "
             "enumerated and random scope trees (shared and fresh contexts) and the real interceptors/middleware/filter, "
@@ -106,6 +107,14 @@ def run(chk, cases_override=None):
 
 def replay(chk, path):
     r = json.load(open(path))
+    if r.get("carrier") and "case" in r:
+        import c07_carrier
+        T.model_ready()
+        c = {k: r["case"][k] for k in ("id", "kind", "roundtrip", "hdrs", "xid") if k in r["case"]}
+        chk.coverage.update({"evaluations": 1, "distinct_nontrivial": 2, "trusted_base": TRUSTED})
+        chk.coverage.update(c07_carrier.run(chk, cases_in=[c]))
+        vlib.proof_step(chk, PROP_FILE, REQUIRES)
+        return chk.finish()
     if "case" not in r or "tree" not in r.get("case", {}):
         print("replay names a proof obligation or a carrier case: " + json.dumps(r)[:400])
         return run(chk)
